@@ -23,7 +23,20 @@ A_RING = [
     "(machine arithmetic treated as mathematical); G1 points and Polynomials form a module over it (msm, +, -, scalar *)",
     "callee contracts of dependencies used by R (merlin Transcript::{new,append_message,append_u64,challenge_bytes} as log events; "
     "msm_variable_base = sum s_i*P_i; batch_normalize = identity on group elements; pairing functions opaque)",
-    "std iterator adaptors on fixed-size arrays (iter/zip/map/sum, extend_from_slice, copy_from_slice) have their documented semantics",
+    "std iterator adaptors on collections of known length (iter/iter_mut/zip/map/filter/rev/skip/take/chain/enumerate/sum/any/all/eq, "
+    "chunks(_mut), split_at(_mut), split_at_checked, swap, reverse, resize, clear, pop, last, extend_from_slice, copy_from_slice) have "
+    "their documented semantics; adapters are evaluated eagerly and a write between an eager filter test and its lazy turn is reported as "
+    "outside the fragment",
+    "rayon: par_iter / par_iter_mut / into_par_iter / par_chunks(_mut) yield the items of their sequential counterparts, each exactly once, "
+    "and the kernels' closures touch only their own item (so every schedule equals the sequential order); rayon::current_num_threads() is an "
+    "instance parameter of the units that read it",
+    "dependency constants with listed values: BlsScalar::CAPACITY = 254, BlsScalar::NUM_BITS = 255 (dusk-bls12_381 0.14.2 scalar.rs), "
+    "usize::BITS = 64; BitIterator8 yields the 256 bits most significant first; BlsScalar::from_bytes is the canonical decoder "
+    "(None for values >= r), BlsScalar::from_raw reduces mod r",
+    "uninterpreted symbols: field inverses inv(p) (results stated in product form), roots of unity w with the single relation "
+    "w^(n/2) = -1, dependency functions without a listed meaning (structural comparison only)",
+    "statements outside R's fragment that mention no tracked object are havocked in trace-only units (their exits are recorded as "
+    "unmodelled_exit entries); a code-side havoc facing an exact contract value is UNDECIDED, never a violation",
 ]
 
 WIDGETS_PK = ("compute_quotient_i", "compute_linearization", "quotient_", "linearizer_", ".delta", "delta_xor_and", "extract_bit", "check_bit")
